@@ -49,6 +49,8 @@ type replay struct {
 	Schedule  string     `json:"model_schedule,omitempty"`
 	Names     []string   `json:"thread_ops,omitempty"`
 	Seed      uint64     `json:"seed,omitempty"`
+	HoldMS    int        `json:"hold_ms,omitempty"`
+	CloseMS   int        `json:"close_ms,omitempty"`
 	Procs     int        `json:"procs,omitempty"`
 	Race      bool       `json:"race,omitempty"`
 	Monitors  bool       `json:"monitors,omitempty"`
@@ -585,6 +587,14 @@ func main() {
 		}
 		rp := w.Replay
 		switch rp.Kind {
+		case "close-scenario":
+			if closeBehindBusyExecutor(res, rp.HoldMS, rp.CloseMS) {
+				for _, f := range res.Findings {
+					fmt.Println(f.Kind, f.Signature, f.What)
+				}
+				os.Exit(1)
+			}
+			fmt.Println("close scenario: Close completed its cleanup")
 		case "path":
 			v := ask(d, fmt.Sprintf("judge P=%s G=%s X=1", rp.Path, rp.Group))
 			still := false
@@ -645,6 +655,7 @@ func main() {
 
 	if os.Getenv("C12_RACE_SURVEY") == "" {
 		staticPhase(o, res, d)
+		closeScenarios(res)
 	}
 	if os.Getenv("C12_SKIP_DYNAMIC") != "" { // development aid for mutation trials; never set by registered commands
 		res.Notes = append(res.Notes, "dynamic phase skipped by C12_SKIP_DYNAMIC")
